@@ -179,7 +179,7 @@ func H_Registry() {
 		w.Regs[slot] = kit.Reg{Present: true, Life: life, Form: form, Variant: 0}
 		return w.Add(c, slot), w.Identities(slot)
 	}
-	forms := []int{kit.IdPlain, kit.IdNamed, kit.IdGroup, kit.IdAs, kit.IdMulti, kit.IdResObj2}
+	forms := []int{kit.IdPlain, kit.IdNamed, kit.IdGroup, kit.IdAs, kit.IdMulti, kit.IdResObj2, kit.IdResObjGroup2}
 	for s := 1; s <= L; s++ {
 		sfx := string(rune('0' + s))
 		op := vrt.Pick("op"+sfx, 0, 4)
@@ -222,6 +222,10 @@ func H_Registry() {
 				}
 				var ar *godi.AlreadyRegisteredError
 				vrt.Assert(errors.As(err, &ar), "C17.duplicate_error_class", "rejection is not an AlreadyRegisteredError:", err)
+			}
+			if err == nil && !collide && form == kit.IdResObjGroup2 {
+				// registered, but godi cannot construct group fields of result objects (open finding)
+				vrt.Finding("KF-C04-multi-options", true)
 			}
 			if err == nil && !collide {
 				tag++
